@@ -23,6 +23,7 @@ EXPLANATION = (
     "block boundary acknowledged at _ackseq >= blksize or the last segment, _ackseq wraps after a full block; R7 the "
     "initiate and end responses are validated before use (clause shared with C07.R3); R9 readinto() stores the whole segment it consumed and reports its length; R8 structural assumptions shared by all properties: no class-level mutable object is mutated in place by instances, no method re-runs the constructor, logging statements cannot raise (typed eager formatting, divisions), no mutable default argument is kept or mutated, no new truth-value test of a None-able number, a look-up memory the pinned tree does not have is keyed by all its inputs (arithmetic keys folded over a grid of addresses) and, on the serving side, emptied somewhere."
     ' R5 also: _done is stored before the checksum comparison it guards.'
+    ' R5 also: CRC identity (binascii.crc_hqx chained from 0, pure final()) shared with C12.R6; R9 also: the read buffer open() gives the BufferedReader holds a whole segment.'
 )
 ASSUMPTIONS = [
     "not decided: loss/corruption runs; server assumed standard-conformant",
